@@ -30,8 +30,11 @@ UNITS2 = {
     # local packer are identities (tags)
     'WavSeq': (os.path.join(vlib.REPO, 'librfn/wavheader.c'),
                ['rf_wavheader_init', 'rf_wavheader_set_num_frames', 'rf_wavheader_validate', 'rf_wavheader_encode', 'rf_wavheader_decode'], 1,
-               {'externs': ['rf_pack_init', 'rf_pack_remaining', 'rf_pack_bytes', 'rf_pack_u16le', 'rf_pack_u32le', 'rf_unpack_bytes',
-                            'rf_unpack_u16le', 'rf_unpack_u32le', 'memcmp', 'memcpy']}),
+               {'externs': ['rf_pack_init', 'rf_pack_consumed', 'rf_pack_remaining', 'rf_pack_bytes', 'rf_pack_char', 'rf_pack_s8', 'rf_pack_u8',
+                            'rf_pack_s16be', 'rf_pack_s16le', 'rf_pack_u16be', 'rf_pack_u16le', 'rf_pack_s32be', 'rf_pack_s32le', 'rf_pack_u32be',
+                            'rf_pack_u32le', 'rf_unpack_bytes', 'rf_unpack_char', 'rf_unpack_s8', 'rf_unpack_u8', 'rf_unpack_s16be',
+                            'rf_unpack_s16le', 'rf_unpack_u16be', 'rf_unpack_u16le', 'rf_unpack_s32be', 'rf_unpack_s32le', 'rf_unpack_u32be',
+                            'rf_unpack_u32le', 'memcmp', 'memcpy']}),
     # one iteration of the POSIX main loop; the clock, the scheduling pass and the sleep are the environment
     'MainLoopSeq': (os.path.join(vlib.VERIF, 'harness/wrap_mainloop.c'), ['fibre_scheduler_main_loop'], 1,
                     {'externs': ['time_now', 'fibre_scheduler_next', 'usleep'], 'flags': ['-I' + vlib.REPO]}),
